@@ -37,6 +37,9 @@ type IdItemBis int64
 // gomacro:SQL ADD UNIQUE(Name)
 // gomacro:SQL _SELECT KEY (Kind)
 // gomacro:SQL CREATE INDEX ItemBis_idx ON Item (Kind)
+// gomacro:SQL CREATE INDEX idx_Item ON Item (Name)
+// gomacro:SQL ADD CHECK (Item.Kind >= 0)
+// gomacro:SQL ADD UNIQUE(Id)
 // gomacro:QUERY SetKind UPDATE Item SET Kind = $k$ WHERE Id = $id$ AND Kind = $k$
 // gomacro:QUERY Twice UPDATE Item SET Name = $n$ WHERE Name = $n$ AND Kind = $kind$ AND Id = $id$
 type Item struct {
@@ -47,6 +50,8 @@ type Item struct {
 	Lab   S ` + "`gomacro-sql-guard:\"#[S.Sb]\"`" + `
 }
 
+// the same directive text as on Item
+// gomacro:SQL ADD UNIQUE(Id)
 type ItemBis struct {
 	Id IdItemBis
 }
@@ -84,6 +89,9 @@ func TestGovcHarness_Directives(t *testing.T) {
 	expect("name after REFERENCES replaced by the SQL table name", strings.Contains(out, "REFERENCES items ON DELETE CASCADE"))
 	expect("ADD constraint attached to the table of its struct", strings.Contains(out, "ALTER TABLE items ADD CHECK") && strings.Contains(out, "ALTER TABLE items ADD UNIQUE"))
 	expect("whole-word table names replaced, other words kept", strings.Contains(out, "CREATE INDEX ItemBis_idx ON items (Kind);"))
+	expect("a table name inside a longer identifier is not replaced", strings.Contains(out, "CREATE INDEX idx_Item ON items (Name);"))
+	expect("a table name touching punctuation is replaced", strings.Contains(out, "ALTER TABLE items ADD CHECK (items.Kind >= 0);"))
+	expect("the same directive on two structs yields one statement per table", strings.Contains(out, "ALTER TABLE items ADD UNIQUE(Id);") && strings.Contains(out, "ALTER TABLE item_biss ADD UNIQUE(Id);"))
 	expect("select keys never reach the SQL output", !strings.Contains(out, "_SELECT"))
 	expect("queries never reach the SQL output", !strings.Contains(out, "SetKind"))
 	// custom queries: placeholders numbered by first occurrence, equal names sharing a number, one input per name
